@@ -39,7 +39,7 @@ func main() {
 	worker.Run(r, worker.Opts{Phase: "cberr", Total: r.N(300, 3000), Batch: 100, Timeout: 20 * time.Minute})
 	if bin := os.Getenv("VERIF_RACE_BIN"); bin != "" {
 		raceDir, _ := os.MkdirTemp("", "verif-c04-race-")
-		defer os.RemoveAll(raceDir)
+		r.Cleanup(func() { os.RemoveAll(raceDir) })
 		worker.Run(r, worker.Opts{Phase: "race", Total: r.N(150, 1500), Batch: 50, Bin: bin, Timeout: 30 * time.Minute,
 			Env: []string{"GORACE=halt_on_error=0 log_path=" + filepath.Join(raceDir, "race")}})
 		mon.ReportRaces(r, raceDir)
